@@ -347,6 +347,26 @@ def handle (op : String) (args : List String) : String :=
   | "evStrict", [ds, env, e] => match parseVal ds, parseEnv env, parseExpr e with
     | some ds, some env, some e => resStr (ev (driverWorld ds) (Env.ofList env.reverse) e)
     | _, _, _ => bad
+  | "scanLine", [key, toks] =>
+    -- the loop over the lambdas of a logical line: tokens after the first `lambda` keyword, the NAME token before it
+    match SExpr.parse key, SExpr.parse toks with
+    | some k, some (.list ts) =>
+      let keyO : Option Token := match k with
+        | .str s => some ⟨.name, s⟩
+        | _ => none
+      let kindOf (s : String) : TKind :=
+        if s == "name" then .name else if s == "op" then .op else if s == "newline" then .newline
+        else if s == "nl" then .nl else if s == "comment" then .comment else .other
+      let parsed := ts.mapM (fun x => match x with
+        | .list [.atom kd, .str tx] => some ({ kind := kindOf kd, text := tx } : Token)
+        | _ => none)
+      (match parsed with
+       | some tl =>
+         let res := scanLine (tl.length + 1) keyO tl
+         "ok\t" ++ (SExpr.list (res.map (fun p => SExpr.list [(match p.1 with | some s => SExpr.str s | none => SExpr.atom "none"),
+           SExpr.list (p.2.map (fun t => SExpr.str t.text))]))).render
+       | none => bad)
+    | _, _ => bad
   | "pick", [caller, argNames, cands] =>
     match SExpr.parse caller, (SExpr.parse argNames).bind strsOfSExpr, SExpr.parse cands with
     | some c, some an, some (.list cs) =>
